@@ -33,6 +33,7 @@ __all__ = [
 from exabgp.rib.route import Route
 from exabgp.bgp.message import Notify
 from exabgp.bgp.message.update.nlri import Flow
+from exabgp.bgp.message.update.nlri.flow import flow_family_error
 from exabgp.bgp.message.update.attribute import AttributeCollection
 from exabgp.bgp.message.update.nlri.qualifier import RouteDistinguisher
 
@@ -163,6 +164,10 @@ def route(tokeniser: Any) -> list[Route]:
         new_nlri._rules_cache = flow_nlri._rules_cache
         new_nlri._packed_stale = True
         flow_nlri = new_nlri
+
+    error = flow_family_error(flow_nlri.afi, flow_nlri.rules)
+    if error:
+        raise ValueError(f'flow route: {error}')
 
     try:
         # packs the rules: a flow NLRI is at most 4095 bytes (RFC 8955 4.1). It was only found out when the route
